@@ -115,3 +115,7 @@ fn clause_id_eq() {
     kani::cover!(true);
     assert!((ClauseId::from_usize(a) == ClauseId::from_usize(b)) == (a == b));
 }
+
+// NOTE: a bounded harness for WatchedLiterals::requires (<= 3 candidates, symbolic assignments built through the
+// real DecisionTracker) was tried and dropped: CBMC exhausted 62 GB on it (Vec growth + iterator adapters), as
+// for every other harness of this crate with a symbolic collection.  Clause::requires stays not under contract.
